@@ -94,4 +94,10 @@ def step (s : VState) : VEvent → VState
 def run (n : Nat) (evs : List VEvent) : VState := evs.foldl step (init n)
 
 end VState
+/-- `CommunicationChannel.verify` / `on_verification_results` (communication_manager.py): the verifier's report for a
+    LIST of reference values — row i pairs the i-th reference value with the i-th certainty the overlay computed for
+    the same list -/
+def reportRows {α : Type} (refs : List α) (score : α → Rat) : List (α × Rat) :=
+  (refs.zip (refs.map score))
+
 end Ipv8.C18
